@@ -289,6 +289,11 @@ func runGS(t []string) string {
 	for _, x := range banderwagon.BatchToBytesUncompressed(ptrs...) {
 		b.WriteString(" " + hexs(x[:]))
 	}
+	b.WriteString(" | US")
+	for i := range regs {
+		u := regs[i].BytesUncompressedTrusted()
+		b.WriteString(" " + hexs(u[:]))
+	}
 	b.WriteString(" | UT")
 	for i := range regs {
 		u := regs[i].BytesUncompressedTrusted()
